@@ -146,11 +146,13 @@ pub struct RunOpts {
     pub extra_known: Vec<Sig>,
     /// the driver keeps repeating the last step of its script
     pub repeat_last: bool,
+    /// call the read-only methods of the iterator (size_hint, vars) before every next()
+    pub poke: bool,
 }
 
 impl RunOpts {
     pub fn new(max_next: usize) -> Self {
-        RunOpts { max_next, after_end: 0, continue_after_error: false, seed: 1, budget: DEFAULT_BUDGET, collect_vars: false, collect_key: false, extra_known: vec![], repeat_last: false }
+        RunOpts { max_next, after_end: 0, continue_after_error: false, seed: 1, budget: DEFAULT_BUDGET, collect_vars: false, collect_key: false, extra_known: vec![], repeat_last: false, poke: false }
     }
 }
 
@@ -305,6 +307,12 @@ where
             let mut n = 0;
             while n < opts.max_next {
                 n += 1;
+                if opts.poke {
+                    let _ = guard(opts.budget, || {
+                        let _ = it.size_hint();
+                        let _ = it.vars();
+                    });
+                }
                 let item = match guard(opts.budget, || item_of(it.next())) {
                     Ok(i) => i,
                     Err(Caught::Panic(s)) => ObsItem::Panic(s),
